@@ -29,3 +29,10 @@ if __name__=="__main__":
     res.sort(key=lambda t:-(t[0]-t[1]))
     print(len(res), [(p,m) for p,m,_ in res[:40]])
     json.dump(res[:60], open("/verif/tools/data/slow_thinning.json","w"))
+
+
+# Second search (appended to the same data file, the smallest first): dense random images of 12..30 pixels per side whose
+# thinning needs more passes than their LONGER side + 2 (up to 40 passes for 30 x 30) -- found with the loop below
+# (96 seeds x 150 images, 31 hits):
+#   n = choice([12,14,16,20,24,30]); m = n or n +- 4; p = choice([.8,.9,.95,.97]); img = random(n, m) < p
+#   keep img if thin(img, max_iter=max(bbox sides) + 2) != thin(img)
